@@ -1,6 +1,6 @@
 """C17 -- any query text either parses or is rejected with a query error, and terminates.
 
-Explorer P: (a) ALL strings up to a length bound over an 18-symbol token alphabet,
+Explorer P: (a) ALL strings up to a length bound over an 19-symbol token alphabet,
 each in three contexts; (b) every single-edit corruption (delete / duplicate /
 swap / insert each symbol at each position) of a corpus of valid programs;
 (c) every built-in called with 0..arity+1 arguments and with every top-level
@@ -19,11 +19,11 @@ from mc.lattice import chunked
 from mc.props import c11
 from mc.ref import queryeval as Q
 
-ALPHABET = ("a", "1", '"', "'", "(", ")", "[", "]", "{", "}", ",", ":", "=", ";", " ", "\\", "nop", "²")
+ALPHABET = ("a", "1", '"', "'", "(", ")", "[", "]", "{", "}", ",", ":", "=", ";", " ", "\\", "nop", "²", "-")
 CONTEXTS = ("{}", "RETURN = {}", "RETURN = args1({})")
 BOUNDS = {
-    "quick": {"strings": "all strings of <=5 symbols over the 18-symbol alphabet (2.0 M) x 3 contexts", "corruptions": "every single edit (delete, duplicate, swap adjacent, insert each of 18 symbols) of a 30-program corpus", "resolution": "every registered built-in x 0..arity+1 arguments x 6 top-level types per position"},
-    "thorough": {"strings": "<=6 symbols (36 M) x 3 contexts", "corruptions": "additionally all double edits of the 8 shortest corpus programs", "resolution": "as quick"},
+    "quick": {"strings": "all strings of <=5 symbols over the 19-symbol alphabet (2.6 M) x 3 contexts", "corruptions": "every single edit (delete, duplicate, swap adjacent, insert each of 19 symbols) of a 30-program corpus", "resolution": "every registered built-in x 0..arity+1 arguments x 6 top-level types per position"},
+    "thorough": {"strings": "<=6 symbols (50 M) x 3 contexts", "corruptions": "additionally all double edits of the 8 shortest corpus programs", "resolution": "as quick"},
 }
 RULE = (
     "every enumerated text is run through aw_query.query2.query under a 5 s alarm; the outcome must be a value or a QueryException subclass (other exceptions only if raised inside a transform / q2_* function body = deep data-shape errors, counted separately); "
@@ -170,6 +170,34 @@ def _unit_edits(args):
 TYPE_VALUES = (("int", "1"), ("str", '"b1"'), ("list", "[]"), ("list-of-events", 'query_bucket("b1")'), ("dict", '{"a": 1}'), ("nested-call", "nop()"))
 
 
+# documented top-level parameter types of the built-ins (independent of the implementation's own
+# annotations: a seeded re-annotation of a parameter silently switched its type check off)
+SIGNATURES = {
+    "find_bucket": (str, None),
+    "query_bucket": (str,),
+    "query_bucket_eventcount": (str,),
+    "filter_keyvals": (list, str, list),
+    "exclude_keyvals": (list, str, list),
+    "filter_keyvals_regex": (list, str, str),
+    "filter_period_intersect": (list, list),
+    "period_union": (list, list),
+    "limit_events": (list, int),
+    "merge_events_by_keys": (list, list),
+    "chunk_events_by_key": (list, str),
+    "sort_by_timestamp": (list,),
+    "sort_by_duration": (list,),
+    "sum_durations": (list,),
+    "concat": (list, list),
+    "union_no_overlap": (list, list),
+    "flood": (list,),
+    "split_url_events": (list,),
+    "simplify_window_titles": (list, str),
+    "nop": (),
+    "categorize": (list, list),
+    "tag": (list, list),
+}
+
+
 def arity(name):
     import inspect
 
@@ -182,7 +210,10 @@ def arity(name):
 
     ps = [p for p in sig.parameters.values() if p.annotation is not Datastore and p.annotation != TNamespace]
     req = [p for p in ps if p.default is p.empty]
-    return len(req), len(ps), [p.annotation for p in ps]
+    anns = [p.annotation for p in ps]
+    if name in SIGNATURES and len(SIGNATURES[name]) == len(ps):
+        anns = list(SIGNATURES[name])
+    return len(req), len(ps), anns
 
 
 def _unit_resolution(names):
